@@ -28,53 +28,69 @@ Print Assumptions defaults_are_the_stated_ones.
 
 (* ---- mgmt_authorised: a command changes forwarder state only under /localhost/nfd, or - RIB commands only - under
    /localhop/nfd when localhop management is enabled. (That only local faces can send under /localhost is C09.) ---- *)
-Theorem mgmt_authorised : forall rib_to_fib face_cleanup allow st vs c st' vs' r,
-  run rib_to_fib face_cleanup allow st vs c = Ok st' vs' r -> st' = st \/ authorised allow (c_name c) = true.
+Theorem mgmt_authorised : forall rib_to_fib face_cleanup allow ds_fits st vs c st' vs' r,
+  run rib_to_fib face_cleanup allow ds_fits st vs c = Ok st' vs' r -> st' = st \/ authorised allow (c_name c) = true.
 Proof. exact run_authorised. Qed.
 Print Assumptions mgmt_authorised.
 
 (* ---- mgmt_reject_pure: whatever is not answered with status 200 (4xx/5xx, silent drop, dataset) changes nothing ---- *)
-Theorem mgmt_reject_pure : forall rib_to_fib face_cleanup allow st vs c st' vs' r,
-  run rib_to_fib face_cleanup allow st vs c = Ok st' vs' r -> accepted r = false -> st' = st.
+Theorem mgmt_reject_pure : forall rib_to_fib face_cleanup allow ds_fits st vs c st' vs' r,
+  run rib_to_fib face_cleanup allow ds_fits st vs c = Ok st' vs' r -> accepted r = false -> st' = st.
 Proof. exact run_pure. Qed.
 Print Assumptions mgmt_reject_pure.
 
-Theorem mgmt_status_class : forall rib_to_fib face_cleanup allow st vs c st' vs' r,
-  run rib_to_fib face_cleanup allow st vs c = Ok st' vs' r -> spec_status_class r = true.
+Theorem mgmt_status_class : forall rib_to_fib face_cleanup allow ds_fits st vs c st' vs' r,
+  run rib_to_fib face_cleanup allow ds_fits st vs c = Ok st' vs' r -> spec_status_class r = true.
 Proof. exact run_classed. Qed.
 Print Assumptions mgmt_status_class.
 
 (* ---- mgmt_total: no Interest makes the management thread panic (indexing past the strategy prefix, nil parameters or
    filter, non-NDNLP link service), given the face-table invariant that only null/internal faces are non-NDNLP ---- *)
-Theorem mgmt_total : forall rib_to_fib face_cleanup allow st vs c,
-  faces_wf st = true -> run rib_to_fib face_cleanup allow st vs c <> Panic.
+Theorem mgmt_total : forall rib_to_fib face_cleanup allow ds_fits st vs c,
+  faces_wf st = true -> run rib_to_fib face_cleanup allow ds_fits st vs c <> Panic.
 Proof. exact run_total. Qed.
 Print Assumptions mgmt_total.
 
 (* ---- invariants kept by every command: only instantiated strategies in the strategy table and the root keeps one;
    every NDNLP face keeps an MTU above the largest link overhead (mtu_floor); CS capacity stays non-negative;
    the face-table invariant ---- *)
-Theorem mgmt_keeps_invariants : forall rib_to_fib face_cleanup allow st vs c st' vs' r,
-  inv st = true -> run rib_to_fib face_cleanup allow st vs c = Ok st' vs' r -> inv st' = true.
+Theorem mgmt_keeps_invariants : forall rib_to_fib face_cleanup allow ds_fits st vs c st' vs' r,
+  inv st = true -> run rib_to_fib face_cleanup allow ds_fits st vs c = Ok st' vs' r -> inv st' = true.
 Proof. exact run_keeps_inv. Qed.
 Print Assumptions mgmt_keeps_invariants.
 
 (* ---- datasets_exact: every status dataset (single segment) lists exactly the table it reports ---- *)
-Theorem datasets_exact : forall rib_to_fib face_cleanup allow st vs c st' vs' r,
-  run rib_to_fib face_cleanup allow st vs c = Ok st' vs' r -> spec_dataset c r st' = true.
+Theorem datasets_exact : forall rib_to_fib face_cleanup allow ds_fits st vs c st' vs' r,
+  run rib_to_fib face_cleanup allow ds_fits st vs c = Ok st' vs' r -> spec_dataset c r st' = true.
 Proof. exact run_ds_exact. Qed.
 Print Assumptions datasets_exact.
 
+(* ---- datasets_answered_partial. Full statement: every dataset request under the management prefix is answered with the
+   dataset. Proved only under the visible hypothesis that every dataset fits one segment ([ds_fits] = "encoded length <=
+   8000", external codec): makeStatusDataset gives up on larger datasets and nothing is sent. The pinned code therefore
+   violates the full statement - answered_unless_large_refuted, known finding (about 180 routes are enough). ---- *)
+Theorem datasets_answered_partial : forall rib_to_fib face_cleanup allow ds_fits st vs c st' vs' r,
+  (forall d, ds_fits d = true) ->
+  run rib_to_fib face_cleanup allow ds_fits st vs c = Ok st' vs' r -> spec_answered allow c r = true.
+Proof. exact run_answered. Qed.
+Print Assumptions datasets_answered_partial.
+
+Theorem answered_unless_large_refuted : forall rib_to_fib face_cleanup fits, honest_fits fits ->
+  inv big_state = true /\ is_dataset_cmd false (c_name rib_list_cmd) = true /\
+  forall vs, exists vs', run rib_to_fib face_cleanup false fits big_state vs rib_list_cmd = Ok big_state vs' RNone.
+Proof. exact answered_refuted. Qed.
+Print Assumptions answered_unless_large_refuted.
+
 (* ---- the model meets the step specification that the runner evaluates on the implementation's observations ---- *)
-Theorem mgmt_step_spec : forall rib_to_fib face_cleanup allow st vs c st' vs' r,
-  run rib_to_fib face_cleanup allow st vs c = Ok st' vs' r -> spec_step allow st c r st' = true.
+Theorem mgmt_step_spec : forall rib_to_fib face_cleanup allow ds_fits st vs c st' vs' r,
+  run rib_to_fib face_cleanup allow ds_fits st vs c = Ok st' vs' r -> spec_step allow st c r st' = true.
 Proof. exact run_spec_step. Qed.
 Print Assumptions mgmt_step_spec.
 
 (* ---- all histories: from any state meeting the invariants, every sequence of commands runs without panic, every step
    meets the step specification and the invariants hold after every step ---- *)
-Theorem mgmt_all_histories : forall rib_to_fib face_cleanup allow cs st vs, inv st = true ->
-  exists tr, run_trace rib_to_fib face_cleanup allow st vs cs = Some tr /\ length tr = length cs /\ Forall (step_good allow) tr.
+Theorem mgmt_all_histories : forall rib_to_fib face_cleanup allow ds_fits cs st vs, inv st = true ->
+  exists tr, run_trace rib_to_fib face_cleanup allow ds_fits st vs cs = Some tr /\ length tr = length cs /\ Forall (step_good allow) tr.
 Proof. exact all_histories. Qed.
 Print Assumptions mgmt_all_histories.
 
@@ -240,7 +256,7 @@ Definition ex_history : list cmd :=
     Build_cmd 2 (local_prefix ++ ex_name [w_rib; w_list]) None 0 QErr ].
 Example c17_example :
   inv ex_state = true /\
-  match run_trace (fun r _ f => f) (fun _ r f => (r, f)) false ex_state (Build_vers 0 0 0 0 0 0) ex_history with
+  match run_trace (fun r _ f => f) (fun _ r f => (r, f)) false (fun _ => true) ex_state (Build_vers 0 0 0 0 0 0) ex_history with
   | Some [(_, _, RCtl 200 _ 2, s1); (_, _, RCtl 200 _ 2, s2); (_, _, RCtl 200 _ 2, s3); (_, _, RData (NRibList _) 0 (DRib t), _)] =>
       rib_find (s_rib s1) ex_ab 2 0 = Some (Build_route 2 0 0 1 None) /\
       strat_find (s_strat s2) ex_ab = Some (strategy_prefix ++ [gcomp [109;117;108;116;105;99;97;115;116]; version_comp 1]) /\
